@@ -11,6 +11,8 @@ python3 "$(dirname "$0")/../vx/bounded.py" gqlrt quick >/dev/null 2>&1 || true
 python3 "$(dirname "$0")/../vx/bounded.py" srcmap quick >/dev/null 2>&1 || true
 python3 "$(dirname "$0")/../vx/bounded.py" nopanic quick >/dev/null 2>&1 || true
 python3 "$(dirname "$0")/../vx/bounded.py" tsverdict quick >/dev/null 2>&1 || true
+python3 "$(dirname "$0")/../vx/bounded.py" valueschema quick >/dev/null 2>&1 || true
+python3 "$(dirname "$0")/../vx/bounded.py" valueop quick >/dev/null 2>&1 || true
 python3 "$(dirname "$0")/../vx/bounded.py" opverdict quick >/dev/null 2>&1 || true
 python3 "$(dirname "$0")/../vx/bounded.py" scalars quick >/dev/null 2>&1 || true
 python3 "$(dirname "$0")/../vx/bounded.py" extmerge quick >/dev/null 2>&1 || true
